@@ -5,7 +5,7 @@ from vlib import VERIF
 
 SPEC = os.path.join(VERIF, 'spec', 'proxy')
 DIRTXT = {'nostore': 'no-store', 'private': 'private', 'privatef': 'private="set-cookie"', 'nocache': 'no-cache',
-          'nocachef': 'no-cache="set-cookie"', 'public': 'public', 'mustreval': 'must-revalidate', 'smaxage': 's-maxage=3600',
+          'nocachef': 'no-cache="set-cookie"', 'public': 'public', 'mustreval': 'must-revalidate', 'proxyreval': 'proxy-revalidate', 'smaxage': 's-maxage=3600',
           'maxage': 'max-age=3600'}
 
 
